@@ -112,6 +112,7 @@ Definition pev_ok (tid : nat) (p p' : lpc) (S : lshared) (ev : list levent) : Pr
   | [ESyncEnd t ok] => t = tid /\ p = SyEnd ok /\ p' = LDone
   | [ETimeout] => False
   | [EGoroutines _ _] => False
+  | [EStopOver _] => False
   | [_] => in_stop p' = in_stop p
   | _ => False
   end.
@@ -879,3 +880,86 @@ Proof.
   - apply in_seq. lia.
   - rewrite E1, E3. reflexivity.
 Qed.
+
+(* ------------------------------------------------------------------ Stop never waits for another thread, except through
+   the grace-bounded join: with choice 1 (= "the timer fires" at StJoin) every own step of a Stop caller is enabled in
+   EVERY shared state. This is the model's reading of "Stop returns within its grace period"; it rests on the modelling
+   decision that the startMu / dataChanMux critical sections contain no blocking operation and no callback (Model header),
+   which the Go harness tests with sinks that block or re-enter while a Stop or a channel expansion is pending (family B). *)
+Definition stop_own (p : lpc) : bool :=
+  match p with StBegin | StFlag | StClose | StWindow | StNil | StJoin | StFlush | StFlushing | StReturn _ => true | _ => false end.
+Definition stop_rank (p : lpc) : nat :=
+  match p with StBegin => 8 | StFlag => 7 | StClose => 6 | StWindow => 5 | StNil => 4 | StJoin => 3 | StFlush => 2
+             | StFlushing => 2 | StReturn _ => 1 | _ => 0 end.
+
+Lemma stop_never_waits : forall c tid a s p, stop_own p = true -> exists r, lpstep c tid 1 p a s = Some r.
+Proof.
+  intros c tid a s p H. destruct p; simpl in H; try discriminate; simpl; eauto.
+  - destruct (stopped s); eauto.
+  - destruct (c_cep c); eauto.
+Qed.
+
+(* one own step with choice 1, no CEP flush: the rank decreases, the code stays empty, nobody else is touched *)
+Lemma stop_own_step : forall c st tid a p, c_cep c = false ->
+  nth_error (ths st) tid = Some (lmk p [] a) -> stop_own p = true ->
+  exists st' p', lstep c tid 1 st = Some st' /\ nth_error (ths st') tid = Some (lmk p' [] a) /\
+                 stop_rank p' < stop_rank p /\ (stop_own p' = true \/ p' = LDone).
+Proof.
+  intros c st tid a p Hc Hn Hp. unfold lstep. rewrite Hn. unfold ltstep. simpl.
+  destruct p; simpl in Hp; try discriminate; simpl.
+  all: try (eexists; eexists; split; [reflexivity|]; simpl; split;
+            [eapply nth_error_set_nth_eq; eauto | split; [simpl; lia | simpl; auto]]).
+  - (* StFlag *) destruct (stopped (sh st)); eexists; eexists; (split; [reflexivity|]); simpl; (split;
+      [eapply nth_error_set_nth_eq; eauto | split; [simpl; lia | simpl; auto]]).
+  - (* StFlush *) rewrite Hc. eexists; eexists; split; [reflexivity|]; simpl; split;
+      [eapply nth_error_set_nth_eq; eauto | split; [simpl; lia | simpl; auto]].
+Qed.
+
+Lemma done_stays : forall c n st tid a, nth_error (ths st) tid = Some (lmk LDone [] a) ->
+  lrun c (rep n (tid, 1)) st = st.
+Proof.
+  induction n; intros st tid a Hn; auto.
+  change (lrun c (rep (S n) (tid, 1)) st) with (lrun c (rep n (tid, 1)) (lstep_or_skip c st (tid, 1))).
+  assert (E : lstep_or_skip c st (tid, 1) = st).
+  { unfold lstep_or_skip, lstep. simpl. rewrite Hn. rewrite done_never_steps. reflexivity. }
+  rewrite E. apply IHn with (a := a). exact Hn.
+Qed.
+
+Lemma stop_returns_alone : forall c n st tid a p, c_cep c = false ->
+  nth_error (ths st) tid = Some (lmk p [] a) -> stop_own p = true -> stop_rank p <= n ->
+  nth_error (ths (lrun c (rep n (tid, 1)) st)) tid = Some (lmk LDone [] a).
+Proof.
+  intros c n. induction n; intros st tid a p Hc Hn Hp Hr.
+  - destruct p; simpl in Hp; try discriminate; simpl in Hr; lia.
+  - change (lrun c (rep (S n) (tid, 1)) st) with (lrun c (rep n (tid, 1)) (lstep_or_skip c st (tid, 1))).
+    destruct (stop_own_step c st tid a p Hc Hn Hp) as [st' [p' [Hs [Hn' [Hlt Ho]]]]].
+    assert (E : lstep_or_skip c st (tid, 1) = st'). { unfold lstep_or_skip. simpl. rewrite Hs. reflexivity. }
+    rewrite E.
+    destruct Ho as [Ho|Ho].
+    + apply IHn with (p := p'); auto. lia.
+    + subst p'. rewrite (done_stays c n st' tid a Hn'). exact Hn'.
+Qed.
+
+(* ------------------------------------------------------------------ EmitSync takes part in the lifecycle whatever the
+   sink lists contain when it begins (ProcessSync registers under startMu before anything else): the transition of
+   SyBegin does not read asinks / ssinks, and the sinks it will call are the snapshot taken LATER by IExpand. *)
+Lemma emitsync_always_registers : forall c tid ch a s, c_track_sync c = true -> stopped s = false ->
+  exists p' code', lpstep c tid ch SyBegin a s = Some (p', code', upd_life s (life s + 1) (tokens s), [ESyncBegin tid])
+                   /\ lweight p' = 1.
+Proof.
+  intros c tid ch a s Ht Hs. simpl. rewrite Ht, Hs. destruct ch; eauto.
+Qed.
+
+(* witness for family W: EmitSync begins with NO sink registered, a synchronous sink is registered while the call is in
+   flight, Stop is called and cannot pass its join (choice 0 disabled) until the call, which does invoke the new sink,
+   has ended; the trace is accepted *)
+Definition inflight_mid : lstate :=
+  lrun (cfg_of true true true false false) ([(0,0)] ++ rep 3 (1,0) ++ rep 5 (2,0)) (linit 4 [] [] [RSync; RAdd true; RStopper]).
+Definition inflight_run : lstate :=
+  lrun (cfg_of true true true false false) (rep 8 (0,0) ++ rep 4 (2,0)) inflight_mid.
+Lemma inflight_joined :
+  lstep (cfg_of true true true false false) 2 0 inflight_mid = None /\ life (sh inflight_mid) = 1 /\
+  rev (ltrace inflight_run) =
+    [ESyncBegin 0; EStopBegin 2; ESinkBegin 0 false; ESinkEnd 0; ESyncEnd 0 true; EStopReturn 2 true] /\
+  chk_state inflight_run = None.
+Proof. vm_compute. auto. Qed.
